@@ -435,6 +435,56 @@ func interesting(pc *pCase) (bool, string) {
 	return len(pc.Ctrls) >= 2 || imported > 0, shape
 }
 
+// featureClass names what a project has that the session mechanisms are sensitive to:
+//   "lazy-outside": a controller in a file no glob matches, in a package no glob touches but a matched route's type names
+//   "composite":    map / generic / slice-of-declared types in signatures (composite graph nodes)
+//   "multi":        several controllers            "plain": the rest
+func featureClass(pc *pCase) string {
+	inside, outsidePk := map[string]bool{}, map[string]bool{}
+	out := map[string]bool{}
+	for _, c := range pc.Ctrls {
+		if c.Outside {
+			out[c.ID] = true
+		} else {
+			inside[c.Pkg] = true
+		}
+	}
+	for _, c := range pc.Ctrls {
+		if c.Outside && !inside[c.Pkg] {
+			outsidePk[c.Pkg] = true
+		}
+	}
+	lazy, composite := false, false
+	for _, m := range pc.Methods {
+		if out[m.Ctrl] {
+			continue
+		}
+		ts := append([]string{}, m.Ret...)
+		for _, sg := range m.Sig {
+			ts = append(ts, sg.Type)
+		}
+		for _, t := range ts {
+			for pk := range outsidePk {
+				if strings.Contains(t, pk+".") {
+					lazy = true
+				}
+			}
+			if strings.Contains(t, "map[") || strings.Contains(t, "[]") && strings.Contains(t, ".") || strings.Contains(t, "[") && !strings.HasPrefix(t, "[]") && !strings.HasPrefix(t, "map[") {
+				composite = true
+			}
+		}
+	}
+	switch {
+	case lazy:
+		return "lazy-outside"
+	case composite:
+		return "composite"
+	case len(pc.Ctrls) >= 2:
+		return "multi"
+	}
+	return "plain"
+}
+
 func measuresEqual(a, b []sMeasure) string {
 	if len(a) != len(b) {
 		return "different number of steps"
@@ -494,6 +544,30 @@ func sessionRun(args []string) error {
 		if ok, _ := interesting(pc); ok || *only != "" {
 			cand = append(cand, pc)
 		}
+	}
+	// deal the candidates round-robin over feature classes, so that a small sample still has every kind of project
+	{
+		byClass := map[string][]*pCase{}
+		order := []string{}
+		for _, pc := range cand {
+			k := featureClass(pc)
+			if _, ok := byClass[k]; !ok {
+				order = append(order, k)
+			}
+			byClass[k] = append(byClass[k], pc)
+		}
+		sort.Strings(order)
+		dealt := []*pCase{}
+		for len(dealt) < len(cand) {
+			for _, k := range order {
+				if l := byClass[k]; len(l) > 0 {
+					dealt = append(dealt, l[0])
+					byClass[k] = l[1:]
+				}
+			}
+		}
+		cand = dealt
+		summary["classes"] = order
 	}
 	chosen := []*proj{}
 	var mu sync.Mutex
